@@ -3,7 +3,6 @@
 package main
 
 import (
-	"bytes"
 	"fmt"
 
 	"github.com/willabides/rjson"
@@ -35,7 +34,7 @@ func (c18) Assumptions() []string {
 	}
 }
 func (c18) Required(tier string) []string {
-	return []string{"S-switch", "switch-at-state-label", "switch-at-loop", "switch-at-func-entry", "switch-inside-fp", "switch-inside-handler-traversal", "same-function-in-all-tasks", "all-tasks-deep-in-user-recursion", "switch-between-two-statements", "preemption-bounded-schedule", "single-preemption-sweep", "identical-work-in-all-tasks"}
+	return []string{"S-switch", "switch-at-state-label", "switch-at-loop", "switch-at-func-entry", "switch-inside-fp", "switch-inside-handler-traversal", "same-function-in-all-tasks", "all-tasks-deep-in-user-recursion", "switch-between-two-statements", "preemption-bounded-schedule", "single-preemption-sweep", "identical-work-in-all-tasks", "documents-are-windows-of-one-shared-read-buffer"}
 }
 func (c18) Gen(r *Rand, sc *Scenario, tier string) { genC18(r, sc, tier) }
 
@@ -290,10 +289,11 @@ func (c18) Exec(sc *Scenario, st *Stats) *Violation {
 		st.probe("identical-work-in-all-tasks")
 	}
 	con, _, _ := runInterleaved(sc, st, NewTape(sched), docs)
-	for i := range docs {
-		if !bytes.Equal(docs[i], snap[i]) {
-			return &Violation{Class: "shared-input-modified", Task: -1, Op: -1, Sig: "C18/shared-input-modified", Detail: fmt.Sprintf("shared document %d was modified", i)}
-		}
+	if i := docsEqual(docs, snap); i >= 0 {
+		return &Violation{Class: "shared-input-modified", Task: -1, Op: -1, Sig: "C18/shared-input-modified", Detail: fmt.Sprintf("shared document %d (or the bytes within its capacity) was modified", i)}
+	}
+	if sc.cfg("docs-in-one-arena") == 1 {
+		st.probe("documents-are-windows-of-one-shared-read-buffer")
 	}
 	return compareRuns(sc, seq, con, "interleaved by the schedule tape")
 }
